@@ -18,7 +18,7 @@ static int raw_cmp(const void *a, const void *b) {
     uintptr_t x = (uintptr_t)a, y = (uintptr_t)b;
     if (cmpmode == 2) { x /= 4; y /= 4; }
     if (cmpmode == 1) { uintptr_t t = x; x = y; y = t; }
-    return x < y ? -1 : (x > y ? 1 : 0);
+    return x < y ? -3 : (x > y ? 5 : 0);   /* legal comparators need not return -1/0/1 */
 }
 static int counting_cmp(const void *a, const void *b) { ncmp++; return raw_cmp(a, b); }
 /* "huge" observation mode: 10^5-key histories exceed the ledger's capacity, so the table gets the real allocator
